@@ -113,6 +113,7 @@ func (ctx *Context) TransactionWriteRegister(exe Execution, sequenceID int32) {
 }
 
 func (ctx *Context) Commit() {
+	ctx.VerifProbe(VerifProbeCommit)
 	for register, tu := range ctx.Transaction {
 		ctx.Registers[register] = tu.value
 	}
@@ -120,6 +121,7 @@ func (ctx *Context) Commit() {
 }
 
 func (ctx *Context) Rollback(sequenceID int32) {
+	ctx.VerifProbe(VerifProbeRollback)
 	for register, tu := range ctx.Transaction {
 		if tu.sequenceID < sequenceID {
 			ctx.Registers[register] = tu.value
@@ -139,6 +141,7 @@ func (ctx *Context) TransactionRATWrite(exe Execution, sequenceID int32) {
 }
 
 func (ctx *Context) RATCommit() {
+	ctx.VerifProbe(VerifProbeCommit)
 	for register, tu := range ctx.transactionRAT.Values() {
 		ctx.committedRAT.Write(register, tu.value)
 	}
@@ -146,6 +149,7 @@ func (ctx *Context) RATCommit() {
 }
 
 func (ctx *Context) RATRollback(sequenceID int32) {
+	ctx.VerifProbe(VerifProbeRollback)
 	for register, tu := range ctx.transactionRAT.FindValues(func(u transactionUnit) bool {
 		return u.sequenceID < sequenceID
 	}) {
